@@ -668,8 +668,23 @@ def _expected_sel(n, w):
         return type(e).__name__
 
 
+SMALL_N = 48            # all atoms / all pairs are checked one by one
+MATRIX_N = 2000         # n x n matrices are built and compared as arrays
+TABLE_N = 10 ** 6       # anything that allocates O(n) in the code under test (get_all_bonds, the constructor)
+
+
+def _sample_atoms(n, ref):
+    if n <= SMALL_N:
+        return list(range(n))
+    ks = set(range(4)) | set(range(n - 4, n)) | {i for pr in list(ref.m)[:12] for i in pr}
+    return sorted(k for k in ks if 0 <= k < n)
+
+
 def _views_disagree(bl, ref):
-    """Compare every view of the real object with the reference mapping; returns [(view, message)]."""
+    """Compare every view of the real object with the reference mapping; returns [(view, message)].
+    Up to 48 atoms everything is checked exhaustively; on larger lists per-atom views are sampled (first / last atoms
+    and the bonded ones), matrices are compared as arrays up to 2000 atoms, and views that allocate O(n) or O(n^2)
+    in the code under test are skipped beyond 10^6 / 2000 atoms."""
     import numpy as np
     out = []
     n = int(bl.get_atom_count())
@@ -687,19 +702,25 @@ def _views_disagree(bl, ref):
         out.append(("canonical", f"unsorted or out-of-range pair in {arr} for {n} atoms"))
     if out:
         return out          # the per-atom views below do unchecked writes on a corrupted list
-    deg = [0] * max(n, 1)
+    deg = {}
     for i, j, _ in arr:
-        deg[i] += 1
-        deg[j] += 1
+        deg[i] = deg.get(i, 0) + 1
+        deg[j] = deg.get(j, 0) + 1
+    maxdeg = max(deg.values()) if deg else 0
     cached = getattr(bl, "_max_bonds_per_atom", None)
-    if n and cached is not None and max(deg) > int(cached):
-        return [("max_bonds_per_atom", f"cached {cached} < degree {max(deg)}")]
-    ab, at = bl.get_all_bonds()
-    if ab.shape[0] != n or at.shape != ab.shape:
-        out.append(("get_all_bonds", f"shape {ab.shape}"))
-    for k in range(n):
+    if n and cached is not None and maxdeg > int(cached):
+        return [("max_bonds_per_atom", f"cached {cached} < degree {maxdeg}")]
+    atoms = _sample_atoms(n, ref)
+    ab = at = None
+    if n <= TABLE_N:
+        ab, at = bl.get_all_bonds()
+        if ab.shape[0] != n or at.shape != ab.shape:
+            out.append(("get_all_bonds", f"shape {ab.shape}"))
+    for k in atoms:
         want = ref.neighbours(k)
         for idx in (k, k - n):
+            if not INT32[0] <= idx <= INT32[1]:
+                continue        # not addressable through an int32 argument (huge lists: own stream, own finding)
             b, t = bl.get_bonds(idx)
             if sorted(zip(b.tolist(), t.tolist())) != want:
                 out.append(("get_bonds", f"get_bonds({idx}) = {list(zip(b.tolist(), t.tolist()))}, expected {want}"))
@@ -718,24 +739,37 @@ def _views_disagree(bl, ref):
                         got3 = "ERR:" + type(e).__name__
                     if got3 != want:
                         out.append((vname + "-numpy-scalar", f"index np.{np.dtype(_np_type(dname)).name}({idx}) -> {got3}, expected {want}"))
-        row = sorted((x, y) for x, y in zip(ab[k].tolist(), at[k].tolist()) if x != -1 or y != -1)
-        if row != want:
-            out.append(("get_all_bonds", f"row {k} = {row}, expected {want}"))
-    adj = bl.adjacency_matrix()
-    tm = bl.bond_type_matrix()
+        if ab is not None:
+            row = sorted((x, y) for x, y in zip(ab[k].tolist(), at[k].tolist()) if x != -1 or y != -1)
+            if row != want:
+                out.append(("get_all_bonds", f"row {k} = {row}, expected {want}"))
     g = bl.as_graph()
     edges = sorted((min(a, b), max(a, b), int(d["bond_type"])) for a, b, d in g.edges(data=True))
     if edges != exp:
         out.append(("as_graph", f"{edges} != {exp}"))
-    for i in range(n):
-        for j in range(n):
-            t = ref.m.get(Ref.key(i, j))
-            if bool(adj[i, j]) != (t is not None):
-                out.append(("adjacency_matrix", f"[{i},{j}] = {adj[i, j]}"))
-            if int(tm[i, j]) != (-1 if t is None else t):
-                out.append(("bond_type_matrix", f"[{i},{j}] = {tm[i, j]}, expected {t}"))
-            if ((i, j) in bl) != (t is not None):
-                out.append(("contains", f"({i},{j}) in bonds = {(i, j) in bl}"))
+    if n <= MATRIX_N:
+        adj = bl.adjacency_matrix()
+        tm = bl.bond_type_matrix()
+        want_adj = np.zeros((n, n), dtype=bool)
+        want_tm = np.full((n, n), -1, dtype=np.int64)
+        for (i, j), t in ref.m.items():
+            want_adj[i, j] = want_adj[j, i] = True
+            want_tm[i, j] = want_tm[j, i] = t
+        if adj.shape != (n, n) or not np.array_equal(adj, want_adj):
+            bad = np.argwhere(adj != want_adj)[:1].tolist() if adj.shape == (n, n) else adj.shape
+            out.append(("adjacency_matrix", f"differs from the mapping at {bad}"))
+        if tm.shape != (n, n) or not np.array_equal(tm.astype(np.int64), want_tm):
+            bad = np.argwhere(tm != want_tm)[:1].tolist() if tm.shape == (n, n) else tm.shape
+            out.append(("bond_type_matrix", f"differs from the mapping at {bad}"))
+    # membership: every pair of the sampled atoms, every bonded pair, and non-negative indices beyond the atom count
+    pairs = {(i, j) for i in atoms for j in atoms} if n <= SMALL_N else \
+        ({(i, j) for i in atoms[:8] for j in atoms[:8]} | set(ref.m) | {(j, i) for i, j in ref.m})
+    for i, j in sorted(pairs):
+        if ((i, j) in bl) != (Ref.key(i, j) in ref.m):
+            out.append(("contains", f"({i},{j}) in bonds = {(i, j) in bl}"))
+    for i, j in ((n, 0), (0, n), (n + 3, n + 5)):
+        if max(i, j) <= 2 ** 32 - 1 and ((i, j) in bl):
+            out.append(("contains", f"({i},{j}) in bonds is True for {n} atoms"))
     # less-used entry points: str, iteration refused, comparison with a foreign object, !=, copy()
     if str(bl) != str(bl.as_array()):
         out.append(("str", f"{str(bl)!r}"))
@@ -749,20 +783,21 @@ def _views_disagree(bl, ref):
     cp = bl.copy()
     if not (cp == bl) or cp != bl or cp.as_set() != set(exp) or np.shares_memory(cp.as_array(), bl.as_array()):
         out.append(("copy", "copy() differs from the list"))
-    if getattr(cp, "_max_bonds_per_atom", None) is not None and int(cp._max_bonds_per_atom) < (max(deg) if n else 0):
+    if getattr(cp, "_max_bonds_per_atom", None) is not None and int(cp._max_bonds_per_atom) < maxdeg:
         out.append(("copy", "copy() has a too small cached maximum"))
     # equality: equal to a list rebuilt from the mapping, different from every one-step neighbour of it
-    same = _mk(n, [list(x) for x in reversed(exp)], 3)
-    if not (bl == same) or not (same == bl):
-        out.append(("eq", "not equal to a list built from the same mapping"))
-    if bl == _mk(n + 1, [list(x) for x in exp], 3):
-        out.append(("eq", "equal to a list with a different atom count"))
-    if exp:
-        if bl == _mk(n, [list(x) for x in exp[1:]], 3):
-            out.append(("eq", "equal to a list with one bond less"))
-        i, j, t = exp[0]
-        if bl == _mk(n, [[i, j, (t + 1) % 10]] + [list(x) for x in exp[1:]], 3):
-            out.append(("eq", "equal to a list with a different bond type"))
+    if n <= TABLE_N:
+        same = _mk(n, [list(x) for x in reversed(exp)], 3)
+        if not (bl == same) or not (same == bl):
+            out.append(("eq", "not equal to a list built from the same mapping"))
+        if bl == _mk(n + 1, [list(x) for x in exp], 3):
+            out.append(("eq", "equal to a list with a different atom count"))
+        if exp:
+            if bl == _mk(n, [list(x) for x in exp[1:]], 3):
+                out.append(("eq", "equal to a list with one bond less"))
+            i, j, t = exp[0]
+            if bl == _mk(n, [[i, j, (t + 1) % 10]] + [list(x) for x in exp[1:]], 3):
+                out.append(("eq", "equal to a list with a different bond type"))
     return out[:4]
 
 
@@ -779,8 +814,10 @@ def _grab_views(bl):
     out["as_array"] = (a, a.copy())
     s = bl.as_set()
     out["as_set"] = (s, frozenset(s))
-    for name, fn in (("get_all_bonds", bl.get_all_bonds), ("adjacency_matrix", bl.adjacency_matrix),
-                     ("bond_type_matrix", bl.bond_type_matrix)):
+    nn = int(bl.get_atom_count())
+    heavy = [("get_all_bonds", bl.get_all_bonds)] if nn <= TABLE_N else []
+    heavy += [("adjacency_matrix", bl.adjacency_matrix), ("bond_type_matrix", bl.bond_type_matrix)] if nn <= MATRIX_N else []
+    for name, fn in heavy:
         r = fn()
         out[name] = (r, tuple(x.copy() for x in r) if isinstance(r, tuple) else r.copy())
     g = bl.as_graph()
